@@ -47,6 +47,7 @@ QUICK_HISTORIES = [(), ('raw',), ('tok',), ('part',), ('fail',), ('reset2',), ('
                    ('reset2', 'pB'), ('fail', 'pA'), ('pAs', 'fail'), ('tok', 'tagger'), ('pA', 'ws'), ('pBn', 'pAs'), ('failtok', 'reset2'),
                    ('raw', 'pAs', 'fill'), ('tok', 'pAs', 'fill'), ('pAs', 'fill', 'pB'), ('pAs', 'fill', 'fail'), ('pA', 'fill', 'reset2')]
 FINALS = ['A', 'As', 'B']
+STALE_UPDATES_DOC = 'raw abab / b, tokenized "a b a/x b" / "ab ab a", partial "a|b-a b a" / "a/t|b-a|a"'
 BOUNDS = {
     'quick': {'histories': [' '.join(h) or '(none)' for h in QUICK_HISTORIES], 'final text': '1..3 symbolic characters over {a, b, any other scalar value}', 'final predictors': FINALS},
     'thorough': {'histories': 'every sequence of <=2 operations of the alphabet %s plus the quick list' % sorted(OPS), 'final text': '1..4 symbolic characters', 'final predictors': FINALS},
@@ -101,6 +102,29 @@ def jobs(tier, seed):
                 js.append({'name': 'hist/%s/%s/n%d' % ('+'.join(h) or 'none', fin, n), 'hist': list(h), 'final': fin, 'n': n, 'seed': seed})
     js.sort(key=lambda j: -j['n'])
     return js
+
+
+def c18_jobs(tier, seed):
+    """states that are reachable through the public API but lie outside C08's quantifier (which always ends with update_raw; predict; fill_tags):
+    only the obligations of unchecked operations are judged on them, by C18"""
+    js = []
+    # predict again on an already predicted sentence (no update in between)
+    for p1 in FINALS:
+        for p2 in FINALS:
+            for n in ((1, 2) if tier == 'quick' else (1, 2, 3)):
+                for fill1 in ((False,) if tier == 'quick' and p1 != 'As' else (False, True)):
+                    js.append({'name': 'repredict/%s%s/%s/n%d' % (p1, '+fill' if fill1 else '', p2, n), 'kind': 'repredict', 'hist': ['p' + p1] + (['fill'] if fill1 else []) + ['(no update)'],
+                               'p1': p1, 'fill1': fill1, 'final': p2, 'n': n, 'seed': seed})
+    # fill_tags after an update that was NOT followed by a prediction: the update must have dropped everything the tagger reads
+    for p in ('A', 'As'):
+        for kind, text in STALE_UPDATES:
+            js.append({'name': 'stalefill/%s/%s/%s' % (p, kind, text.replace(' ', '_').replace('/', '%')), 'kind': 'stalefill', 'hist': ['raw', 'p' + p, 'update-%s(no predict)' % kind],
+                       'p1': p, 'final': p, 'ukind': kind, 'utext': text, 'n': 0, 'seed': seed})
+    js.sort(key=lambda j: -j['n'])
+    return js
+
+
+STALE_UPDATES = [('raw', 'abab'), ('raw', 'b'), ('tokenized', 'a b a/x b'), ('tokenized', 'ab ab a'), ('partial', 'a|b-a b a'), ('partial', 'a/t|b-a|a')]
 
 
 class SeededWeights(dict):
@@ -244,6 +268,65 @@ def obs_equal(e, a, b, ca, cb):
 def make(e, progs, job):
     prog = progs['core']
     st = {}
+
+    def harness_repredict(e):
+        preds = e.memo(('preds', job.get('seed', 0)), lambda: build_predictors(e, prog, job.get('seed', 0)))
+        st['preds'] = preds
+        ss = S.sym_string(e, 'x', job['n'], 'ab', exclude='\0')
+        st['s'] = ss
+        sv = hlib.build_str(e, ss.chars)
+        cell = Cell(S.new_sentence(e, prog, 'raw', sv).f[0].v)
+        pc1, _ = preds[job['p1']]
+        S.call(e, prog, 'Predictor', 'predict', [Ref(pc1), Ref(cell)])
+        if job['fill1']:
+            S.call(e, prog, 'Sentence', 'fill_tags', [Ref(cell)])
+        o1, c1 = final_steps(e, prog, preds, cell, job['final'])
+        fcell = Cell(S.new_sentence(e, prog, 'raw', Str(list(sv.b))).f[0].v)
+        o2, c2 = final_steps(e, prog, preds, fcell, job['final'])
+        e.check(obs_equal(e, o1, o2, c1, c2), 'reused sentence equals fresh sentence')
+
+    def harness_stalefill(e):
+        preds = e.memo(('preds', job.get('seed', 0)), lambda: build_predictors(e, prog, job.get('seed', 0)))
+        st['preds'] = preds
+        cell = Cell(S.new_sentence(e, prog, 'raw', mk_str('ab')).f[0].v)
+        pc1, _ = preds[job['p1']]
+        S.call(e, prog, 'Predictor', 'predict', [Ref(pc1), Ref(cell)])
+        r = S.update_sentence(e, prog, cell, job['ukind'], mk_str(job['utext']))
+        if r.var != 'Ok':
+            raise Panic('update rejected a well-formed text')
+        S.call(e, prog, 'Sentence', 'fill_tags', [Ref(cell)])
+        o1 = S.observe(e, prog, cell, writers=True, tokens=True)
+        fcell = Cell(S.new_sentence(e, prog, job['ukind'], mk_str(job['utext'])).f[0].v)
+        S.call(e, prog, 'Sentence', 'fill_tags', [Ref(fcell)])
+        o2 = S.observe(e, prog, fcell, writers=True, tokens=True)
+        e.check(obs_equal(e, o1, o2, None, None), 'reused sentence equals fresh sentence')
+
+    def describe_extra(m):
+        ops = []
+        for name, (shape, tags, store) in PREDICTORS.items():
+            pc, ms = st['preds'][name]
+            ops += [{'op': 'model', 'id': 'm' + name, 'data': P.model_json(ms, m)}, {'op': 'predictor', 'id': name, 'model': 'm' + name, 'tags': tags, 'store_scores': store}]
+        cands = job['final'] == 'As'
+        if job['kind'] == 'repredict':
+            text = st['s'].py(m)
+            ops += [{'op': 'sentence', 'id': 's', 'kind': 'raw', 'text': text}, {'op': 'predict', 's': 's', 'p': job['p1']}]
+            if job['fill1']:
+                ops.append({'op': 'fill_tags', 's': 's'})
+            ops += [{'op': 'predict', 's': 's', 'p': job['final']}, {'op': 'fill_tags', 's': 's'}, {'op': 'observe', 's': 's', 'cands': cands},
+                    {'op': 'sentence', 'id': 'f', 'kind': 'raw', 'text': text}, {'op': 'predict', 's': 'f', 'p': job['final']}, {'op': 'fill_tags', 's': 'f'},
+                    {'op': 'observe', 's': 'f', 'cands': cands}]
+        else:
+            text = job['utext']
+            ops += [{'op': 'sentence', 'id': 's', 'kind': 'raw', 'text': 'ab'}, {'op': 'predict', 's': 's', 'p': job['p1']},
+                    {'op': 'update', 'id': 's', 'kind': job['ukind'], 'text': text}, {'op': 'fill_tags', 's': 's'}, {'op': 'observe', 's': 's'},
+                    {'op': 'sentence', 'id': 'f', 'kind': job['ukind'], 'text': text}, {'op': 'fill_tags', 's': 'f'}, {'op': 'observe', 's': 'f'}]
+        return {'property': ID, 'job': job, 'text': text, 'ops': ops}
+
+    if job.get('kind') in ('repredict', 'stalefill'):
+        def sample2():
+            return {'job': job['name']}
+        e.sample = sample2
+        return (harness_repredict if job['kind'] == 'repredict' else harness_stalefill), describe_extra
 
     def harness(e):
         preds = e.memo(('preds', job.get('seed', 0)), lambda: build_predictors(e, prog, job.get('seed', 0)))
